@@ -24,7 +24,7 @@ from .values import (
     SStr,
 )
 
-_MISSING = object()
+from .values import MISSING as _MISSING
 MODELS: dict[Any, Any] = {}
 
 PY_HASH = z3.Function("py_hash", z3.IntSort(), z3.IntSort())
